@@ -112,6 +112,14 @@ func NewConsumerGroup(parent, fanOutPath string, q FanOutQueue) (ConsumerGroup, 
 		if ackSeq < ackOfQueue {
 			ackSeq = ackOfQueue
 		}
+		// messages at or below the acknowledged sequence may be gone, never consume below it
+		if consumedSeq < ackSeq {
+			consumedSeq = ackSeq
+		}
+	} else {
+		// new consumer group starts at the acknowledged sequence of the queue
+		ackSeq = q.Queue().AcknowledgedSeq()
+		consumedSeq = ackSeq
 	}
 	// persist metadata
 	metaPage.PutUint64(uint64(consumedSeq), consumerGroupConsumedSeqOffset)
